@@ -6,6 +6,6 @@ CONSTANTS
   Emission = 1
   XrdEach = 1
   GenesisSel = "c"
-INVARIANTS NonNeg UnitsAreHeld ClaimsBacked NoGain
+INVARIANTS SetStakesPositive NonNeg UnitsAreHeld ClaimsBacked NoGain
 PROPERTIES ActiveSetChosenOK NoValueCreated EmissionBound
 CHECK_DEADLOCK FALSE
